@@ -23,6 +23,404 @@ structure MolAtom (x : Atom) : Prop where
 
 def Graph.MolAtoms (g : Graph) : Prop := ∀ a ∈ g.labels, ∀ x, g.attrs? a = some x → MolAtom x
 
+namespace RoundTrip
+
+/-! ## association lists -/
+section Assoc
+variable {κ ν : Type} [BEq κ] [LawfulBEq κ]
+
+theorem alookup_none {k : κ} : ∀ {l : List (κ × ν)}, k ∉ l.map (·.1) → alookup k l = none
+  | [], _ => rfl
+  | (k', v') :: r, h => by
+    simp only [List.map_cons, List.mem_cons, not_or] at h
+    have : (k' == k) = false := by
+      rw [beq_eq_false_iff_ne]; exact fun e => h.1 e.symm
+    simp only [alookup, this]
+    exact alookup_none h.2
+
+theorem alookup_append_single {k : κ} {v : ν} : ∀ {l : List (κ × ν)}, k ∉ l.map (·.1) →
+    alookup k (l ++ [(k, v)]) = some v
+  | [], _ => by simp [alookup]
+  | (k', v') :: r, h => by
+    simp only [List.map_cons, List.mem_cons, not_or] at h
+    have : (k' == k) = false := by
+      rw [beq_eq_false_iff_ne]; exact fun e => h.1 e.symm
+    simp only [List.cons_append, alookup, this]
+    exact alookup_append_single h.2
+
+theorem ainsert_not_mem {k : κ} {v : ν} : ∀ {l : List (κ × ν)}, k ∉ l.map (·.1) →
+    ainsert k v l = l ++ [(k, v)]
+  | [], _ => rfl
+  | (k', v') :: r, h => by
+    simp only [List.map_cons, List.mem_cons, not_or] at h
+    have : (k' == k) = false := by
+      rw [beq_eq_false_iff_ne]; exact fun e => h.1 e.symm
+    simp only [ainsert, this, List.cons_append]
+    rw [ainsert_not_mem h.2]
+    rfl
+
+theorem ainsert_append_self {k : κ} {v v' : ν} : ∀ {l : List (κ × ν)}, k ∉ l.map (·.1) →
+    ainsert k v' (l ++ [(k, v)]) = l ++ [(k, v')]
+  | [], _ => by simp [ainsert]
+  | (k', v0) :: r, h => by
+    simp only [List.map_cons, List.mem_cons, not_or] at h
+    have : (k' == k) = false := by
+      rw [beq_eq_false_iff_ne]; exact fun e => h.1 e.symm
+    simp only [List.cons_append, ainsert, this]
+    rw [ainsert_append_self h.2]
+    rfl
+
+theorem alookup_of_mem {k : κ} {v : ν} : ∀ {l : List (κ × ν)}, (l.map (·.1)).Nodup →
+    (k, v) ∈ l → alookup k l = some v
+  | [], _, h => by simp at h
+  | (k0, v0) :: r, hnd, h => by
+    simp only [List.map_cons, List.nodup_cons] at hnd
+    simp only [alookup]
+    rcases List.mem_cons.1 h with h | h
+    · cases h; simp
+    · have hne : k0 ≠ k := fun he => hnd.1 (he ▸ List.mem_map_of_mem (f := (·.1)) h)
+      have : (k0 == k) = false := by simpa using hne
+      rw [this]
+      exact alookup_of_mem hnd.2 h
+
+theorem ainsert_eq_map {k : κ} {v : ν} : ∀ {l : List (κ × ν)}, (l.map (·.1)).Nodup → k ∈ l.map (·.1) →
+    ainsert k v l = l.map (fun p => if p.1 == k then (k, v) else p)
+  | [], _, h => by simp at h
+  | (k0, v0) :: r, hnd, h => by
+    simp only [List.map_cons, List.nodup_cons] at hnd
+    simp only [ainsert, List.map_cons]
+    by_cases hk : (k0 == k) = true
+    · simp only [hk, if_true]
+      congr 1
+      have hk' : k0 = k := eq_of_beq hk
+      subst hk'
+      symm
+      conv => rhs; rw [← List.map_id r]
+      apply List.map_congr_left
+      intro p hp
+      have : (p.1 == k0) = false := by
+        rw [beq_eq_false_iff_ne]
+        intro e
+        exact hnd.1 (e ▸ List.mem_map_of_mem (f := (·.1)) hp)
+      simp [this]
+    · have hk' : (k0 == k) = false := by simpa using hk
+      simp only [hk', Bool.false_eq_true, if_false]
+      congr 1
+      apply ainsert_eq_map hnd.2
+      simp only [List.map_cons, List.mem_cons] at h
+      rcases h with h | h
+      · subst h; simp at hk'
+      · exact h
+
+end Assoc
+
+/-! ## listener: formula -/
+
+
+def formulaStep (acc : List Atom) (p : Str × Option Str) : PyM (List Atom) :=
+  match p with
+  | (sym, cnt) => do
+    let count ← match cnt with
+      | none => pure (1 : Int)
+      | some c => listenerInt c
+    let z ← match elementZ sym with
+      | some z => pure z
+      | none => .error .keyError
+    let a : Atom := { sym := some sym, z := some (z : Int), part := some 0 }
+    pure (acc ++ List.replicate count.toNat a)
+
+theorem listenFormula_eq (f : List (Str × Option Str)) : listenFormula f = f.foldlM formulaStep [] := rfl
+
+def mkAtom (s : Str) : Atom :=
+  { sym := some s, z := some (((elementZ s).getD 0 : Nat) : Int), part := some 0 }
+
+theorem listenerInt_natRepr (n : Nat) (h : (natRepr n).length ≤ intMaxStrDigits) :
+    listenerInt (natRepr n) = .ok (n : Int) := by
+  unfold listenerInt
+  rw [pyInt_natRepr n h]
+
+theorem formulaStep_eval (acc : List Atom) (s : Str) (c : Nat) (z : Nat) (hc : 1 ≤ c)
+    (hlen : (natRepr c).length ≤ intMaxStrDigits) (hz : elementZ s = some z) :
+    formulaStep acc (s, countText c) = .ok (acc ++ List.replicate c (mkAtom s)) := by
+  unfold formulaStep mkAtom countText
+  by_cases h1 : c > 1
+  · simp only [h1, if_true, listenerInt_natRepr c hlen, hz]
+    rfl
+  · have : c = 1 := by omega
+    subst this
+    simp only [h1, if_false, hz]
+    rfl
+
+
+theorem formula_eval : ∀ (items : List (Str × Nat)) (acc : List Atom),
+    (∀ i ∈ items, 1 ≤ i.2 ∧ (natRepr i.2).length ≤ intMaxStrDigits ∧ (elementZ i.1).isSome) →
+    (items.map fun i => (i.1, countText i.2)).foldlM formulaStep acc
+      = .ok (acc ++ items.flatMap fun i => List.replicate i.2 (mkAtom i.1))
+  | [], acc, _ => by simp [pure, Except.pure]
+  | i :: r, acc, h => by
+    obtain ⟨h1, h2, h3⟩ := h i List.mem_cons_self
+    obtain ⟨z, hz⟩ := Option.isSome_iff_exists.mp h3
+    rw [List.map_cons, List.foldlM_cons, formulaStep_eval acc i.1 i.2 z h1 h2 hz]
+    show List.foldlM formulaStep _ _ = _
+    rw [formula_eval r _ (fun j hj => h j (List.mem_cons_of_mem _ hj))]
+    simp [List.flatMap_cons]
+
+/-! ## listener: tuples -/
+
+def tupleStep (acc : List (Int × Int)) (p : Str × Str) : PyM (List (Int × Int)) :=
+  match p with
+  | (a, b) => do
+    let i1 ← listenerInt a
+    let i2 ← listenerInt b
+    if i1 == i2 then .error .tucanParser else pure (acc ++ [(i1 - 1, i2 - 1)])
+
+theorem listenTuples_eq (tu : List (Str × Str)) : listenTuples tu = tu.foldlM tupleStep [] := rfl
+
+theorem tupleStep_eval (acc : List (Int × Int)) (a b : Nat) (hab : a ≠ b)
+    (ha : (natRepr (a + 1)).length ≤ intMaxStrDigits) (hb : (natRepr (b + 1)).length ≤ intMaxStrDigits) :
+    tupleStep acc (natRepr (a + 1), natRepr (b + 1)) = .ok (acc ++ [((a : Int), (b : Int))]) := by
+  unfold tupleStep
+  simp only [listenerInt_natRepr _ ha, listenerInt_natRepr _ hb]
+  have hne : (((a + 1 : Nat) : Int) == ((b + 1 : Nat) : Int)) = false := by
+    rw [beq_eq_false_iff_ne]; omega
+  have e1 : ((a + 1 : Nat) : Int) - 1 = (a : Int) := by omega
+  have e2 : ((b + 1 : Nat) : Int) - 1 = (b : Int) := by omega
+  show (if (((a + 1 : Nat) : Int) == ((b + 1 : Nat) : Int)) = true then _ else _) = _
+  rw [hne, e1, e2]
+  rfl
+
+theorem tuples_eval : ∀ (es : List (Nat × Nat)) (acc : List (Int × Int)),
+    (∀ e ∈ es, e.1 ≠ e.2 ∧ (natRepr (e.1 + 1)).length ≤ intMaxStrDigits ∧
+      (natRepr (e.2 + 1)).length ≤ intMaxStrDigits) →
+    (es.map fun e => (natRepr (e.1 + 1), natRepr (e.2 + 1))).foldlM tupleStep acc
+      = .ok (acc ++ es.map fun e => ((e.1 : Int), (e.2 : Int)))
+  | [], acc, _ => by simp [pure, Except.pure]
+  | e :: r, acc, h => by
+    obtain ⟨h1, h2, h3⟩ := h e List.mem_cons_self
+    rw [List.map_cons, List.foldlM_cons, tupleStep_eval acc e.1 e.2 h1 h2 h3]
+    show List.foldlM tupleStep _ _ = _
+    rw [tuples_eval r _ (fun j hj => h j (List.mem_cons_of_mem _ hj))]
+    simp
+
+/-! ## listener: node attributes -/
+
+def propStep (idx : Str) (acc : List (Int × Atom)) (q : Str × Str) : PyM (List (Int × Atom)) :=
+  match q with
+  | (k, v) => do
+    let i ← listenerInt idx
+    let value ← listenerInt v
+    let key ← match attrKeyOf k with
+      | some key => pure key
+      | none => .error .keyError
+    let cur := (alookup (i - 1) acc).getD {}
+    let cur' ← setAttr key value cur
+    pure (ainsert (i - 1) cur' acc)
+
+def blockStep (acc : List (Int × Atom)) (p : Str × List (Str × Str)) : PyM (List (Int × Atom)) :=
+  match p with
+  | (idx, props) => props.foldlM (propStep idx) acc
+
+theorem listenAttrs_eq (ats : List (Str × List (Str × Str))) :
+    listenAttrs ats = ats.foldlM blockStep [] := rfl
+
+theorem listenerInt_intRepr (v : Int) (h : (intRepr v).length ≤ intMaxStrDigits) :
+    listenerInt (intRepr v) = .ok v := by
+  unfold listenerInt
+  rw [pyInt_intRepr v h]
+
+theorem propStep_mass (id : Nat) (acc : List (Int × Atom)) (v : Int)
+    (hid : (natRepr (id + 1)).length ≤ intMaxStrDigits) (hv : (intRepr v).length ≤ intMaxStrDigits) :
+    propStep (natRepr (id + 1)) acc ("mass".toList, intRepr v) =
+      (setAttr "mass" v ((alookup (id : Int) acc).getD {})).bind fun cur' =>
+        .ok (ainsert (id : Int) cur' acc) := by
+  unfold propStep
+  simp only [listenerInt_natRepr _ hid, listenerInt_intRepr v hv, RejectKind.attrKeyOf_keys.1]
+  have e1 : ((id + 1 : Nat) : Int) - 1 = (id : Int) := by omega
+  show (setAttr "mass" v ((alookup (((id + 1 : Nat) : Int) - 1) acc).getD {})).bind
+    (fun cur' => Except.ok (ainsert (((id + 1 : Nat) : Int) - 1) cur' acc)) = _
+  rw [e1]
+
+theorem propStep_rad (id : Nat) (acc : List (Int × Atom)) (v : Int)
+    (hid : (natRepr (id + 1)).length ≤ intMaxStrDigits) (hv : (intRepr v).length ≤ intMaxStrDigits) :
+    propStep (natRepr (id + 1)) acc ("rad".toList, intRepr v) =
+      (setAttr "rad" v ((alookup (id : Int) acc).getD {})).bind fun cur' =>
+        .ok (ainsert (id : Int) cur' acc) := by
+  unfold propStep
+  simp only [listenerInt_natRepr _ hid, listenerInt_intRepr v hv, RejectKind.attrKeyOf_keys.2]
+  have e1 : ((id + 1 : Nat) : Int) - 1 = (id : Int) := by omega
+  show (setAttr "rad" v ((alookup (((id + 1 : Nat) : Int) - 1) acc).getD {})).bind
+    (fun cur' => Except.ok (ainsert (((id + 1 : Nat) : Int) - 1) cur' acc)) = _
+  rw [e1]
+
+/-- the record `_node_attributes` holds for an atom -/
+def recOf (a : Atom) : Atom := { mass := a.mass, rad := a.rad }
+
+theorem setAttr_mass (v : Int) (a : Atom) (h : a.mass = none) :
+    setAttr "mass" v a = .ok { a with mass := some v } := by
+  unfold setAttr
+  simp [h, pure, Except.pure]
+
+theorem setAttr_rad (v : Int) (a : Atom) (h : a.rad = none) :
+    setAttr "rad" v a = .ok { a with rad := some v } := by
+  unfold setAttr
+  have : ("rad" == "mass") = false := by decide
+  simp [this, h, pure, Except.pure]
+
+theorem blockStep_eval (id : Nat) (a : Atom) (acc : List (Int × Atom))
+    (hne : attrPairs a ≠ [])
+    (hid : (natRepr (id + 1)).length ≤ intMaxStrDigits)
+    (hm : ∀ v, a.mass = some v → (intRepr v).length ≤ intMaxStrDigits)
+    (hr : ∀ v, a.rad = some v → (intRepr v).length ≤ intMaxStrDigits)
+    (hfresh : (id : Int) ∉ acc.map (·.1)) :
+    blockStep acc (natRepr (id + 1), attrPairs a) = .ok (acc ++ [((id : Int), recOf a)]) := by
+  unfold blockStep attrPairs recOf
+  cases hmass : a.mass with
+  | none =>
+    cases hrad : a.rad with
+    | none => simp [attrPairs, hmass, hrad] at hne
+    | some r =>
+      simp only [List.nil_append, List.foldlM_cons, List.foldlM_nil]
+      rw [propStep_rad id acc r hid (hr r hrad), alookup_none hfresh]
+      simp only [Option.getD_none]
+      rw [setAttr_rad r {} rfl]
+      show Except.ok (ainsert _ _ _) = _
+      rw [ainsert_not_mem hfresh]
+  | some v =>
+    cases hrad : a.rad with
+    | none =>
+      simp only [List.append_nil, List.foldlM_cons, List.foldlM_nil]
+      rw [propStep_mass id acc v hid (hm v hmass), alookup_none hfresh]
+      simp only [Option.getD_none]
+      rw [setAttr_mass v {} rfl]
+      show Except.ok (ainsert _ _ _) = _
+      rw [ainsert_not_mem hfresh]
+    | some r =>
+      simp only [List.cons_append, List.nil_append, List.foldlM_cons, List.foldlM_nil]
+      rw [propStep_mass id acc v hid (hm v hmass), alookup_none hfresh]
+      simp only [Option.getD_none]
+      rw [setAttr_mass v {} rfl]
+      show (propStep _ (ainsert _ _ _) _ >>= _) = _
+      rw [ainsert_not_mem hfresh, propStep_rad id _ r hid (hr r hrad), alookup_append_single hfresh]
+      simp only [Option.getD_some]
+      rw [setAttr_rad r _ rfl]
+      show (Except.ok (ainsert _ _ _) >>= _) = _
+      rw [ainsert_append_self hfresh]
+      rfl
+
+def hasAttr (nd : Node) : Bool := !(attrPairs nd.attrs).isEmpty
+
+theorem attrs_eval : ∀ (ns : List Node) (acc : List (Int × Atom)),
+    (ns.map (·.id)).Nodup →
+    (∀ nd ∈ ns, (natRepr (nd.id + 1)).length ≤ intMaxStrDigits ∧
+      (∀ v, nd.attrs.mass = some v → (intRepr v).length ≤ intMaxStrDigits) ∧
+      (∀ v, nd.attrs.rad = some v → (intRepr v).length ≤ intMaxStrDigits) ∧
+      (nd.id : Int) ∉ acc.map (·.1)) →
+    (ns.filterMap SerTok.nodeBlock).foldlM blockStep acc
+      = .ok (acc ++ (ns.filter hasAttr).map fun nd => ((nd.id : Int), recOf nd.attrs))
+  | [], acc, _, _ => by simp [pure, Except.pure]
+  | nd :: r, acc, hnd, h => by
+    obtain ⟨h1, h2, h3, h4⟩ := h nd List.mem_cons_self
+    simp only [List.map_cons, List.nodup_cons] at hnd
+    rw [List.filterMap_cons, List.filter_cons]
+    by_cases he : (attrPairs nd.attrs).isEmpty = true
+    · have e1 : SerTok.nodeBlock nd = none := by unfold SerTok.nodeBlock; rw [if_pos he]
+      have e2 : hasAttr nd = false := by unfold hasAttr; rw [he]; rfl
+      simp only [e1, e2, Bool.false_eq_true, if_false]
+      exact attrs_eval r acc hnd.2 (fun x hx => h x (List.mem_cons_of_mem _ hx))
+    · have e1 : SerTok.nodeBlock nd = some (natRepr (nd.id + 1), attrPairs nd.attrs) := by
+        unfold SerTok.nodeBlock; rw [if_neg he]
+      have e2 : hasAttr nd = true := by
+        unfold hasAttr; simp only [Bool.not_eq_true] at he; rw [he]; rfl
+      have hne : attrPairs nd.attrs ≠ [] := by
+        intro hc; rw [hc] at he; exact he rfl
+      simp only [e1, e2, if_true]
+      rw [List.foldlM_cons, blockStep_eval nd.id nd.attrs acc hne h1 h2 h3 h4]
+      show List.foldlM blockStep _ _ = _
+      rw [attrs_eval r _ hnd.2]
+      · simp
+      · intro x hx
+        obtain ⟨g1, g2, g3, g4⟩ := h x (List.mem_cons_of_mem _ hx)
+        refine ⟨g1, g2, g3, ?_⟩
+        simp only [List.map_append, List.map_cons, List.map_nil, List.mem_append, List.mem_singleton, not_or]
+        refine ⟨g4, ?_⟩
+        intro hc
+        have : x.id = nd.id := by omega
+        exact hnd.1 (this ▸ List.mem_map_of_mem (f := (·.id)) hx)
+
+/-! ## §1 the element table: `symOfZ` and `elementZ` are inverse -/
+
+theorem table_lookup : Tables.elementTable.all
+    (fun e => alookup e.1 Tables.elementTable == some e.2 && decide (1 ≤ e.2)) = true := by
+  decide +kernel
+
+theorem symOfZ_spec {z : Int} {s : Str} (h : symOfZ z = some s) :
+    s ∈ elementSyms ∧ elementZ s = some z.toNat ∧ 1 ≤ z := by
+  unfold symOfZ at h
+  cases hf : Tables.elementTable.find? (fun e => (e.2 : Int) == z) with
+  | none => rw [hf] at h; cases h
+  | some e =>
+    rw [hf] at h
+    simp only [Option.map_some, Option.some.injEq] at h
+    have hmem := List.mem_of_find?_eq_some hf
+    have hz : (e.2 : Int) = z := by simpa using List.find?_some hf
+    have ht := List.all_eq_true.mp table_lookup e hmem
+    simp only [Bool.and_eq_true, beq_iff_eq, decide_eq_true_eq] at ht
+    subst h
+    refine ⟨?_, ?_, by omega⟩
+    · unfold elementSyms elementSymbols
+      exact List.mem_map_of_mem (List.mem_map_of_mem hmem)
+    · unfold elementZ
+      rw [String.ofList_toList, ht.1, ← hz]
+      rfl
+
+/-! ## digit counts -/
+
+theorem natRepr_len_mono {a b : Nat} (hab : a ≤ b) (h : (natRepr b).length ≤ intMaxStrDigits) :
+    (natRepr a).length ≤ intMaxStrDigits := by
+  rw [LineM.natRepr_eq] at h ⊢
+  have hk : 0 < intMaxStrDigits := by decide
+  rw [Nat.length_toDigits_le_iff (by decide) hk] at h ⊢
+  omega
+
+/-! ## the Hill items list every symbol with its multiplicity -/
+
+theorem count_flatMap_replicate {α : Type} [BEq α] [LawfulBEq α] (c : α → Nat) (s : α) :
+    ∀ (items : List (α × Nat)), (items.map (·.1)).Nodup → (∀ i ∈ items, i.2 = c i.1) →
+    List.count s (items.flatMap fun i => List.replicate i.2 i.1)
+      = if s ∈ items.map (·.1) then c s else 0
+  | [], _, _ => by simp
+  | i :: r, hnd, h => by
+    simp only [List.map_cons, List.nodup_cons] at hnd
+    have ih := count_flatMap_replicate c s r hnd.2 (fun j hj => h j (List.mem_cons_of_mem _ hj))
+    rw [List.flatMap_cons, List.count_append, List.count_replicate, ih]
+    by_cases hs : i.1 = s
+    · subst hs
+      simp [hnd.1, h i List.mem_cons_self]
+    · have : (i.1 == s) = false := by simpa using hs
+      have hs' : ¬ s = i.1 := fun e => hs e.symm
+      simp [this, hs']
+
+theorem hill_perm (syms : List Str) :
+    ((hillItems syms).flatMap fun i => List.replicate i.2 i.1).Perm syms := by
+  obtain ⟨h1, h2, h3⟩ := hillItems_counts syms
+  rw [List.perm_iff_count]
+  intro s
+  rw [count_flatMap_replicate (fun k => countOcc k syms) s _ h2 (fun i hi => (h1 i hi).2)]
+  split
+  · rw [List.count_eq_length_filter]; rfl
+  · next hn =>
+    rw [h3] at hn
+    exact (List.count_eq_zero.mpr hn).symm
+
+theorem hill_perm_map {β : Type} (f : Str → β) (syms : List Str) :
+    ((hillItems syms).flatMap fun i => List.replicate i.2 (f i.1)).Perm (syms.map f) := by
+  have := (hill_perm syms).map f
+  rw [List.map_flatMap] at this
+  simpa using this
+
+-- §MARK
+end RoundTrip
+
 /-- **C03 (model level), reconstruction half.** -/
 theorem serialize_roundtrip (c : Graph) (hw : c.WF) (hs : c.Simple) (hmol : c.MolAtoms)
     (hsize : (natRepr (c.numberOfNodes + 1)).length ≤ intMaxStrDigits)
